@@ -537,6 +537,65 @@ func vfSccrqDupCase() string {
 	return fmt.Sprintf("sccrqdup tunnels=%d", len(ts))
 }
 
+// idle <gap>: the REAL runner loop with its real timers.  A tunnel is established through Dispatch (SCCRQ,
+// SCCCN); then the link is silent for <gap> ms, long enough for the runner to send the owed ZLB and find the
+// channel idle.  Then a Hello arrives — a message we answer with nothing of our own.  Is a packet carrying
+// Nr = 3 sent within zlbDelay (200 ms) + the idle poll (500 ms) + slack?  Only production goroutines send.
+func vfIdleCase(f []string) string {
+	gap, _ := strconv.Atoi(f[0])
+	c := New(logger.Get("l2tp"))
+	peer := net.IPv4(10, 0, 0, 2).To4()
+	local := net.IPv4(10, 0, 0, 1).To4()
+	acked := make(chan struct{}, 8)
+	c.SetSendControlFn(func(localIP, peerIP net.IP, lp, pp uint16, h l2tppkt.Header, body []byte) error {
+		if h.Nr == 3 {
+			select {
+			case acked <- struct{}{}:
+			default:
+			}
+		}
+		return nil
+	})
+	c.SetLNSConfigResolver(func(string) (LNSConfig, bool) {
+		return LNSConfig{LocalHostname: "lns", ReceiveWindowSize: 16, HelloInterval: time.Hour}, true
+	})
+	dispatch := func(tid, ns, nr uint16, body []byte) error {
+		h := l2tppkt.NewControl(tid, 0, ns, nr)
+		wire := append(h.AppendTo(nil, len(body)), body...)
+		pkt := &dataplane.ParsedPacket{
+			Protocol: models.ProtocolL2TP,
+			IPv4:     &layers.IPv4{SrcIP: peer, DstIP: local},
+			UDP:      &layers.UDP{SrcPort: 1701, DstPort: 1701},
+		}
+		pkt.UDP.Payload = wire
+		return c.Dispatch(pkt)
+	}
+	body := l2tppkt.BuildSCCRQ(l2tppkt.SCCRQParams{HostName: "lac", LocalTunnelID: 99, ReceiveWindowSize: 16, FramingCaps: 3})
+	if err := dispatch(0, 0, 0, body); err != nil {
+		return "sccrq-failed"
+	}
+	var t *Tunnel
+	c.mu.RLock()
+	for _, x := range c.tunnels {
+		t = x
+	}
+	c.mu.RUnlock()
+	if t == nil {
+		return "no-tunnel"
+	}
+	_ = dispatch(t.LocalID, 1, 1, l2tppkt.BuildSCCCN(nil))
+	time.Sleep(time.Duration(gap) * time.Millisecond)
+	_ = dispatch(t.LocalID, 2, 1, l2tppkt.BuildHello())
+	res := "acked=0"
+	select {
+	case <-acked:
+		res = "acked=1"
+	case <-time.After(1500 * time.Millisecond):
+	}
+	c.stopTunnelRunner(t.PeerIP, t.LocalID)
+	return "idle " + res
+}
+
 func vfDispGuard(line string) string {
 	done := make(chan string, 1)
 	go func() {
@@ -548,6 +607,8 @@ func vfDispGuard(line string) string {
 		f := strings.Fields(line)
 		if len(f) >= 2 && f[0] == "disp" {
 			done <- vfDispCase(f[1:])
+		} else if len(f) == 2 && f[0] == "idle" {
+			done <- vfIdleCase(f[1:])
 		} else if len(f) == 1 && f[0] == "sccrqdup" {
 			done <- vfSccrqDupCase()
 		} else if len(f) == 1 && f[0] == "stopccn" {
